@@ -13,10 +13,11 @@
      event loop  EAdd n    fillDataToReadBuffer: pendingData.add                           (389)
                  EFin      ... state == closed ? clear : asyncNotify(recvNotifyCh)          (391-397)
      peer close  PClose1 / PClose2     halfClose: CAS opened->halfClosed ; safeCloseNotify   (336-338)
-     local close LLoad / LCas / LClean / LNotify   Stream.close: load state; CAS ->closed; clean();
-                                       safeCloseNotify only if the old state was opened     (289-301)
-                 LDefer1 / LDefer2   Stream.Close that finds an OnData callback in progress (275-288):
-                           CAS opened->halfClosed (the close itself is deferred to the callback goroutine),
+     local close LLoad / LCas / LClean / LNotify   Stream.close: casToClosed (load state; CAS ->closed; a lost
+                                       CAS loads again: LRetry); clean(); safeCloseNotify if the old state
+                                       was opened or localHalfClosed
+                 LDefer1 / LDefer2   Stream.Close that finds an OnData callback in progress:
+                           CAS opened->localHalfClosed (the close itself is deferred to the callback goroutine),
                            then - if the CAS succeeded - safeCloseNotify
      session     SClose    Session.Close's loop: stream.safeCloseNotify()                   (session.go 307-311)
      deadline    SetDL d   SetReadDeadline, by the reading goroutine between two calls
@@ -34,9 +35,11 @@ Open Scope Z_scope.
 (* ------------------------------------------------------------------------------------------ *)
 (* Part 1                                                                                       *)
 (* ------------------------------------------------------------------------------------------ *)
-Inductive sst := SOpen | SClosed | SHalf.
+Inductive sst := SOpen | SClosed | SHalf | SLocalHalf.
+(* streamOpened / streamClosed / streamHalfClosed (by the peer) / streamLocalHalfClosed (a local Close that
+   found an OnData callback running; the callback goroutine completes it) - Gen/Consts.v c_stream* *)
 Inductive rpc := RIdle | RCheck | RState | RArm | RParked | RWokeN | RWokeC | RDone.
-Inductive lpc := LIdle | LLoaded (old : sst) | LCased (old : sst) | LCleaned (old : sst).
+Inductive lpc := LIdle | LRetry | LLoaded (old : sst) | LCased (old : sst) | LCleaned (old : sst).
 Inductive result := ROk (len : nat) | RErrTimeout | RErrEOS | RErrClosed.
 Inductive branch := BNotify | BClose | BTimer.
 
@@ -74,8 +77,11 @@ Definition init : st :=
      sclosing := false; dpc := false; now := 0; dl := None; tmr := None; tch := false; use_t := false; armed := 0;
      rd := RIdle; minsz := 0; res := None |}.
 
+Definition sst_code (x : sst) : Z :=
+  match x with SOpen => c_streamOpened | SClosed => c_streamClosed | SHalf => c_streamHalfClosed | SLocalHalf => c_streamLocalHalfClosed end.
+
 Definition sst_eqb (a b : sst) : bool :=
-  match a, b with SOpen, SOpen | SClosed, SClosed | SHalf, SHalf => true | _, _ => false end.
+  match a, b with SOpen, SOpen | SClosed, SClosed | SHalf, SHalf | SLocalHalf, SLocalHalf => true | _, _ => false end.
 
 (* return before the timer section: no deferred cleanup *)
 Definition finish_early (s : st) (r : result) : st :=
@@ -186,8 +192,13 @@ Definition step (s : st) (e : ev) : st :=
     else s
   | LLoad =>
     match lc s with
-    | LIdle =>
-      if sst_eqb (ss s) SClosed then s else
+    | LIdle | LRetry =>
+      if sst_eqb (ss s) SClosed then
+        (* casToClosed: already closed: return (not won) *)
+        {| pend := pend s; rbuf := rbuf s; token := token s; closeN := closeN s; ss := ss s; epc := epc s;
+           ppc := ppc s; lc := LIdle; sclosing := sclosing s; dpc := dpc s; now := now s; dl := dl s; tmr := tmr s;
+           tch := tch s; use_t := use_t s; armed := armed s; rd := rd s; minsz := minsz s; res := res s |}
+      else
         {| pend := pend s; rbuf := rbuf s; token := token s; closeN := closeN s; ss := ss s; epc := epc s;
            ppc := ppc s; lc := LLoaded (ss s); sclosing := sclosing s; dpc := dpc s; now := now s; dl := dl s; tmr := tmr s;
            tch := tch s; use_t := use_t s; armed := armed s; rd := rd s; minsz := minsz s; res := res s |}
@@ -202,7 +213,7 @@ Definition step (s : st) (e : ev) : st :=
            tch := tch s; use_t := use_t s; armed := armed s; rd := rd s; minsz := minsz s; res := res s |}
       else
         {| pend := pend s; rbuf := rbuf s; token := token s; closeN := closeN s; ss := ss s; epc := epc s;
-           ppc := ppc s; lc := LIdle; sclosing := sclosing s; dpc := dpc s; now := now s; dl := dl s; tmr := tmr s;
+           ppc := ppc s; lc := LRetry; sclosing := sclosing s; dpc := dpc s; now := now s; dl := dl s; tmr := tmr s;
            tch := tch s; use_t := use_t s; armed := armed s; rd := rd s; minsz := minsz s; res := res s |}
     | _ => s
     end
@@ -217,17 +228,17 @@ Definition step (s : st) (e : ev) : st :=
   | LNotify =>
     match lc s with
     | LCleaned old =>
-      {| pend := pend s; rbuf := rbuf s; token := token s; closeN := closeN s || sst_eqb old SOpen; ss := ss s; epc := epc s;
+      {| pend := pend s; rbuf := rbuf s; token := token s; closeN := closeN s || sst_eqb old SOpen || sst_eqb old SLocalHalf; ss := ss s; epc := epc s;
          ppc := ppc s; lc := LIdle; sclosing := sclosing s; dpc := dpc s; now := now s; dl := dl s; tmr := tmr s;
          tch := tch s; use_t := use_t s; armed := armed s; rd := rd s; minsz := minsz s; res := res s |}
     | _ => s
     end
   | LDefer1 =>
     (* Stream.Close (275-288) while callbackInProcess = 1 (an OnData is running): CAS(state, opened ->
-       halfClosed); the close itself is left to the callback goroutine ... *)
+       localHalfClosed); the close itself is left to the callback goroutine ... *)
     if dpc s then s else
     if sst_eqb (ss s) SOpen then
-      {| pend := pend s; rbuf := rbuf s; token := token s; closeN := closeN s; ss := SHalf; epc := epc s;
+      {| pend := pend s; rbuf := rbuf s; token := token s; closeN := closeN s; ss := SLocalHalf; epc := epc s;
          ppc := ppc s; lc := lc s; sclosing := sclosing s; dpc := true; now := now s; dl := dl s; tmr := tmr s;
          tch := tch s; use_t := use_t s; armed := armed s; rd := rd s; minsz := minsz s; res := res s |}
     else s
@@ -275,7 +286,7 @@ Definition wake_enabled (s : st) : bool := token s || closeN s || (use_t s && tc
 (* a helper thread is at the step that will make a branch ready *)
 Definition helper_pending (s : st) : bool :=
   epc s || ppc s || dpc s
-  || match lc s with LCased SOpen | LCleaned SOpen => true | _ => false end
+  || match lc s with LCased SOpen | LCleaned SOpen | LCased SLocalHalf | LCleaned SLocalHalf => true | _ => false end
   || match tmr s with Some t => t <=? now s | None => false end.
 Definition is_reader_ev (e : ev) : bool := match e with RCall _ | RStep | RWake _ => true | _ => false end.
 
